@@ -13,7 +13,7 @@ def profile(st):
                         'entry_dist': st.choice([1, 3, 10], 'edist'),
                         'sl_rows': st.choice([0, 1, 1], 'sl'), 'tp_rows': st.choice([0, 1, 1], 'tp'),
                         'exit_dist': st.choice([(40, 120), (80, 300), (200, 600)], 'ed'),
-                        'wrong_side_p': 0.0, 'near_band_p': 0.0, 'p_modify': st.choice([0.0, 0.02], 'pm'),
+                        'wrong_side_p': st.choice([0.0, 0.15], 'wsp'), 'near_band_p': 0.0, 'exit_in_go': st.chance(0.5, 'eig'), 'p_modify': st.choice([0.0, 0.02], 'pm'),
                         'p_liquidate': st.choice([0.0, 0.01], 'pl'), 'p_dup': 0.0, 'p_keep_entry': st.choice([0.0, 0.5], 'pk'),
                         'size_frac': st.choice([0.05, 0.2], 'sf'),
                         'ohlc_entries': st.chance(0.5, 'ohlc'), 'data_gate': st.chance(0.6, 'dgate')}}
